@@ -5,6 +5,7 @@
 #include "peek.h"
 
 struct World;
+struct Models;
 
 struct ClientInfo {
 	Task *task = nullptr;
@@ -50,6 +51,8 @@ struct World {
 	J samples = J::arr();
 	std::function<void()> on_T0;  // scenario hook
 	std::vector<std::function<void(J &)>> result_hooks;
+	Models *models = nullptr;     // model peers (sessions / forward scenarios)
+	std::function<bool(const J &)> op_hook;   // scenario-specific ops
 
 	virtual ~World() { for (auto m : owned) delete m; }
 	void build_common();          // hosts, server, clients from cfg
